@@ -89,6 +89,54 @@ fn locality_family(out: &mut Vec<Case>, rng: &mut Rng, caps: &[u32], n: usize) {
     }
 }
 
+/// polling driver: n (3..=5) receives queued on ONE descriptor, some of them cancelled (each by some route), then the
+/// descriptor becomes ready chunk by chunk: after every chunk exactly the OLDEST surviving waiter must complete, with
+/// that chunk (the model predicts who; `C05:neighbour-reordered` decides it on the data)
+fn order_family(out: &mut Vec<Case>, rng: &mut Rng, ns: &[usize], two_victims: bool) {
+    for &n in ns {
+        let mut victim_sets: Vec<Vec<usize>> = (0..n).map(|v| vec![v]).collect();
+        if two_victims {
+            for a in 0..n {
+                for b in a + 1..n {
+                    victim_sets.push(vec![a, b]);
+                }
+            }
+        }
+        for victims in victim_sets {
+            for route in ROUTES {
+                for poll_first in [false, true] {
+                    let mut l = vec!["cfg poll 8".to_string()];
+                    for _ in 0..n {
+                        l.push("push rd 0".into());
+                    }
+                    if poll_first {
+                        l.push("poll".into());
+                    }
+                    for &v in &victims {
+                        cancel_lines(&mut l, route, v);
+                    }
+                    let survivors: Vec<usize> = (0..n).filter(|i| !victims.contains(i)).collect();
+                    for _ in 0..survivors.len() {
+                        l.push("ready 0 1".into());
+                        l.push("poll".into());
+                        // look at the youngest first: a survivor that overtook its elders shows up at once
+                        for &i in survivors.iter().rev() {
+                            l.push(format!("pop {i}"));
+                        }
+                    }
+                    for &v in &victims {
+                        l.push(format!("pop {v}"));
+                    }
+                    let ops: Vec<(&'static str, bool)> = (0..n).map(|_| ("rd", false)).collect();
+                    epilogue(rng, &mut l, &ops, true, false);
+                    let vs: Vec<String> = victims.iter().map(|v| v.to_string()).collect();
+                    out.push(case(format!("order/n{n}/v{}/{route}/{poll_first}", vs.join("_")), l));
+                }
+            }
+        }
+    }
+}
+
 /// cancelling twice, cancelling after completion, cancelling through several routes
 fn repeat_family(out: &mut Vec<Case>, rng: &mut Rng) {
     for drv in DRIVERS {
@@ -204,6 +252,11 @@ fn generate(tier: &str, rng: &mut Rng) -> Vec<Case> {
     let thorough = tier == "thorough";
     f9_family(&mut out, rng);
     repeat_family(&mut out, rng);
+    if thorough {
+        order_family(&mut out, rng, &[3, 4, 5], true);
+    } else {
+        order_family(&mut out, rng, &[3, 4], false);
+    }
     if thorough {
         kinds_family(&mut out, rng, &CAPS);
         locality_family(&mut out, rng, &CAPS, 2);
